@@ -261,8 +261,7 @@ class Arctan:
         return np.arctan(self.a * x) + self.y0
 
     def backprop(self, xbar):
-        xbar = xbar - self.x0
-        xbar *= self.a
+        xbar = self.a * (xbar - self.x0)
         return self.a * (1 / (xbar**2 + 1))
 
 
